@@ -708,3 +708,39 @@ fn c15_sdes_roundtrip_literal_cname() {
     assert!(p.chunks[0].items[0].ty == 1 && p.chunks[0].items[0].text == "ab");
     core::mem::forget(p); core::mem::forget(s);
 }
+
+// ---- thorough-tier shapes
+#[kani::proof]
+#[kani::unwind(6)]
+fn c15_sender_report_roundtrip_2() {
+    let sr = any_sr(2);
+    let body = build_sender_report_body(&sr).unwrap();
+    assert!(body.len() == 72);
+    assert!(parse_sender_report(2, &body).unwrap() == sr);
+}
+#[kani::proof]
+#[kani::unwind(48)]
+fn c15_remb_ssrc_list_3() {
+    let r = RemoteBitrateEstimate { sender_ssrc: kani::any(), bitrate_bps: kani::any::<u32>() as u64 & 0x3FFFF, ssrcs: vec![kani::any(), kani::any(), kani::any()] };
+    let body = build_remb_body(&r).unwrap();
+    assert!(body.len() == 28 && body[12] == 3);
+    assert!(parse_remb_body(&body).unwrap() == r);
+}
+#[kani::proof]
+#[kani::unwind(8)]
+fn c15_fir_roundtrip_3() {
+    let f = FullIntraRequest { sender_ssrc: kani::any(), requests: vec![
+        FirRequest { ssrc: kani::any(), sequence_number: kani::any() }, FirRequest { ssrc: kani::any(), sequence_number: kani::any() },
+        FirRequest { ssrc: kani::any(), sequence_number: kani::any() }] };
+    let body = build_fir_body(&f);
+    assert!(body.len() == 32 && parse_fir_body(&body).unwrap() == f);
+}
+#[kani::proof]
+#[kani::unwind(14)]
+fn c15_twcc_roundtrip_8() {
+    let pl: [u8; 8] = kani::any();
+    let t = TransportWideCc { sender_ssrc: kani::any(), media_ssrc: kani::any(), base_sequence: kani::any(), packet_status_count: kani::any(),
+        reference_time_64ms: kani::any::<u32>() & 0xFF_FFFF, feedback_packet_count: kani::any(), payload: pl.to_vec() };
+    let body = build_twcc_body(&t);
+    assert!(body.len() == 24 && parse_twcc_body(&body).unwrap() == t);
+}
